@@ -65,6 +65,6 @@ impl Task { pub fn name(&self) -> Box<Ident> { unimplemented!() } }
             ('visited_requeued', '''forall |i: int| 0 <= i < vx_it.index@ && *(#[trigger] vx_it.seq()[i]) != qstart_name() ==> pending(self.q).contains(*vx_it.seq()[i])'''),
             ('pending_monotone', 'forall |k: Ident| pending(old(self).q).contains(k) ==> pending(self.q).contains(k)'),
         ]}},
-        ghost=[(('loop_start', 0), 'proof { assert(key == vx_it.seq()[vx_it.index@ as int]); }')]),
+        ghost=[(('loop_start', 0), 'proof { assert(@LV0@ == vx_it.seq()[vx_it.index@ as int]); }')]),
     ])
     return U
